@@ -81,6 +81,11 @@ func ruleCC11(pkgs ...string) Rule {
 							for _, g := range guardsOf(c.P, as, nil) {
 								if g.pos && comparesPositions(info, g.cond) {
 									s.class = "ordered"
+									// the order must be total: all text of an alias carries the position of the
+									// alias word, so two different errors can have equal positions
+									if !breaksTies(info, g.cond) {
+										s.class = "ordered-partial"
+									}
 								}
 							}
 						}
@@ -105,7 +110,7 @@ func ruleCC11(pkgs ...string) Rule {
 				// join units: functions that hold an if-empty and an ordered store
 				hasOrdered := map[*core.Func]bool{}
 				for _, s := range sites {
-					if s.class == "ordered" {
+					if s.class == "ordered" || s.class == "ordered-partial" {
 						hasOrdered[s.f] = true
 					}
 				}
@@ -170,7 +175,9 @@ func ruleCC11(pkgs ...string) Rule {
 					case !both:
 						rr.OK(s.f, key, s.as.Pos(), "one-goroutine", "only one goroutine stores into the slot")
 					case s.class == "ordered":
-						rr.OK(s.f, key, s.as.Pos(), "ordered", "replaces the recorded error only when the new one is earlier in the source")
+						rr.OK(s.f, key, s.as.Pos(), "ordered", "replaces the recorded error only when the new one is earlier in the source, ties broken by the message")
+					case s.class == "ordered-partial":
+						rr.Bad(s.f, key, s.as.Pos(), "the two errors are ordered by position only: at equal positions - every token that comes from an alias value has the position of the alias word - the one reported first is kept, so `<<E p` with the alias p='(' returns `here-document delimited by EOF` or `unexpected '('` depending on the schedule")
 					case s.class == "lower":
 						rr.OK(s.f, key, s.as.Pos(), "if-lower", "a reader's error replaces nothing but a syntax error, whichever comes first")
 					case s.class == "empty" && hasOrdered[s.f] && !uncondLex && !uncondPar:
@@ -346,6 +353,11 @@ func ruleCC12(pkgs ...string) Rule {
 					info := hf.Info()
 					pre := false
 					isPoll := func(n ast.Node) bool {
+						if ifs, ok := n.(*ast.IfStmt); ok && ifs.Else == nil {
+							if is, neg := c.callsCancelPredicate(info, ifs.Cond, cancel); is && !neg && endsInPanicOrReturn(info, ifs.Body.List) {
+								return true
+							}
+						}
 						s, ok := n.(*ast.SelectStmt)
 						if !ok || s == selOf[hf] {
 							return false
@@ -533,4 +545,34 @@ func ruleCC13(pkgs ...string) Rule {
 				}
 			}
 		}}
+}
+
+// breaksTies reports whether cond, besides ordering two positions, also
+// orders something else when the positions are equal: an equality test of two
+// ast.Pos values conjoined with a strict comparison of two strings.
+func breaksTies(info *types.Info, cond ast.Expr) bool {
+	eqPos, cmpStr := false, false
+	ast.Inspect(cond, func(n ast.Node) bool {
+		be, ok := n.(*ast.BinaryExpr)
+		if !ok {
+			return true
+		}
+		tx, okx := info.Types[be.X]
+		ty, oky := info.Types[be.Y]
+		if !okx || !oky || tx.Type == nil || ty.Type == nil {
+			return true
+		}
+		switch be.Op {
+		case token.EQL:
+			if namedTypeName(tx.Type) == "ast.Pos" && namedTypeName(ty.Type) == "ast.Pos" {
+				eqPos = true
+			}
+		case token.LSS, token.GTR:
+			if tx.Type.Underlying().String() == "string" && ty.Type.Underlying().String() == "string" {
+				cmpStr = true
+			}
+		}
+		return true
+	})
+	return eqPos && cmpStr
 }
